@@ -182,10 +182,13 @@ impl<'tcx> Cx<'tcx> {
     }
     /// bytes behind a constant reference (promoted `&TraceId(0)`, `&[u8; 6]`) or an in-memory constant
     fn const_bytes(&self, c: &ConstOperand<'tcx>, env: TypingEnv<'tcx>) -> Option<Vec<u8>> {
+        self.const_bytes2(c.const_, env)
+    }
+    fn const_bytes2(&self, konst: Const<'tcx>, env: TypingEnv<'tcx>) -> Option<Vec<u8>> {
         use rustc_middle::mir::interpret::{GlobalAlloc, Scalar};
         let tcx = self.tcx;
-        let ty = c.const_.ty();
-        let val = c.const_.eval(tcx, env, rustc_span::DUMMY_SP).ok()?;
+        let ty = konst.ty();
+        let val = konst.eval(tcx, env, rustc_span::DUMMY_SP).ok()?;
         let (alloc_id, off, sz) = match val {
             ConstValue::Scalar(Scalar::Ptr(ptr, _)) => {
                 let inner = match ty.kind() {
@@ -200,8 +203,32 @@ impl<'tcx> Cx<'tcx> {
                 (prov.alloc_id(), off.bytes() as usize, lay.size.bytes() as usize)
             }
             ConstValue::Indirect { alloc_id, offset } => {
-                let lay = tcx.layout_of(env.as_query_input(ty)).ok()?;
-                (alloc_id, offset.bytes() as usize, lay.size.bytes() as usize)
+                if let ty::Ref(_, inner, _) = ty.kind() {
+                    // a reference stored in memory: follow the pointer (slice length is the second word)
+                    if let Some(GlobalAlloc::Memory(a)) = tcx.try_get_global_alloc(alloc_id) {
+                        let al = a.inner();
+                        let off = offset.bytes() as usize;
+                        let ptrs = al.provenance().ptrs();
+                        let target = ptrs.iter().find(|(o, _)| o.bytes() as usize == off).map(|(_, p)| p.alloc_id());
+                        if let Some(tid) = target {
+                            let is_slice = matches!(inner.kind(), ty::Slice(_) | ty::Str);
+                            let n = if is_slice {
+                                let raw = al.inspect_with_uninit_and_ptr_outside_interpreter(off + 8..off + 16);
+                                u64::from_le_bytes(raw.try_into().ok()?) as usize
+                            } else {
+                                tcx.layout_of(env.as_query_input(*inner)).ok()?.size.bytes() as usize
+                            };
+                            (tid, 0usize, n)
+                        } else {
+                            return None;
+                        }
+                    } else {
+                        return None;
+                    }
+                } else {
+                    let lay = tcx.layout_of(env.as_query_input(ty)).ok()?;
+                    (alloc_id, offset.bytes() as usize, lay.size.bytes() as usize)
+                }
             }
             ConstValue::Slice { alloc_id, meta } => (alloc_id, 0usize, meta as usize),
             _ => return None,
@@ -647,7 +674,10 @@ fn emit<'tcx>(tcx: TyCtxt<'tcx>, krate: &str, kind: &str) -> String {
                 if fi > 0 {
                     out.push(',');
                 }
-                let fty = tcx.type_of(f.did).instantiate_identity().skip_norm_wip();
+                let fty0 = tcx.type_of(f.did).instantiate_identity();
+                let fty = tcx
+                    .try_normalize_erasing_regions(TypingEnv::post_analysis(tcx, did), fty0)
+                    .unwrap_or(fty0.skip_norm_wip());
                 let adt_of = match fty.kind() {
                     ty::Adt(a, _) => cx.path(a.did()),
                     _ => String::new(),
@@ -696,12 +726,22 @@ fn emit<'tcx>(tcx: TyCtxt<'tcx>, krate: &str, kind: &str) -> String {
             out.push(',');
         }
         first = false;
+        let mut pb = String::new();
+        if val.is_empty() {
+            let args = ty::GenericArgs::identity_for_item(tcx, did);
+            let uv = rustc_middle::mir::UnevaluatedConst::new(did, args);
+            let k = Const::Unevaluated(uv, ty);
+            if let Some(b) = cx.const_bytes2(k, TypingEnv::post_analysis(tcx, did)) {
+                pb = b.iter().map(|x| format!("{:02x}", x)).collect();
+            }
+        }
         let _ = write!(
             out,
-            "{{\"path\":{},\"ty\":{},\"bits\":{},\"dbg\":{},\"span\":{}}}",
+            "{{\"path\":{},\"ty\":{},\"bits\":{},\"pbytes\":{},\"dbg\":{},\"span\":{}}}",
             esc(&cx.path(did)),
             esc(&ty.to_string()),
             esc(&val),
+            esc(&pb),
             esc(&dbg),
             cx.span(tcx.def_span(did))
         );
